@@ -792,6 +792,10 @@ fn tagged(seq: usize, len: usize, rt: bool, rng: &mut Rng) -> String {
 impl Gen for String {
     fn gen(g: &mut GenCx) -> Self {
         let lo = if g.rt { 1 } else { 0 };
+        if !g.rt && g.rng.chance(1, 7) {
+            // an item that renders to no bytes at all (between two separators of a vector / tuple)
+            return String::new();
+        }
         let len = if g.rng.chance(1, 20) { g.rng.range_usize(15, 300) } else { g.rng.range_usize(lo, 14) };
         tagged(g.seq, len, g.rt, g.rng)
     }
@@ -1598,6 +1602,7 @@ fn run_actions(spec: &CaseSpec, buf: usize, rep: &mut Report, verbose: bool) {
         }
     }
     let mut mon = Monitor::new(buf, st.clone());
+    let mut macro_evals: Option<(usize, usize)> = None;
     let mut bad: Option<Bad> = None;
     let mut rt_values = 0u64;
     let mut rt_bad: Option<(usize, String, String)> = None;
@@ -1630,38 +1635,82 @@ fn run_actions(spec: &CaseSpec, buf: usize, rep: &mut Report, verbose: bool) {
                     cur_fn.set("out!");
                     calls = (2 * ps.len()).saturating_sub(1) as u64 + *ln as u64;
                     let d: Vec<Dyn> = ps.iter().map(|p| Dyn(&**p)).collect();
-                    lib!({
-                        match (d.len(), *ln) {
-                            (0, true) => {
-                                outln!();
-                            }
-                            (1, false) => {
-                                out!(d[0]);
-                            }
-                            (2, false) => {
-                                out!(d[0], d[1]);
-                            }
-                            (3, false) => {
-                                out!(d[0], d[1], d[2]);
-                            }
-                            (4, false) => {
-                                out!(d[0], d[1], d[2], d[3]);
-                            }
-                            (1, true) => {
-                                outln!(d[0]);
-                            }
-                            (2, true) => {
-                                outln!(d[0], d[1]);
-                            }
-                            (3, true) => {
-                                outln!(d[0], d[1], d[2]);
-                            }
-                            (4, true) => {
-                                outln!(d[0], d[1], d[2], d[3]);
-                            }
-                            _ => panic!("harness: out! arity {} not supported", d.len()),
+                    if i % 2 == 1 && !d.is_empty() {
+                        // arguments with a side effect: each argument expression takes the next piece from a cursor (as
+                        // `it.next().unwrap()` or `stack.pop()` would); a macro evaluates each argument exactly once
+                        let mut k = 0usize;
+                        fn nx<'a, 'p>(k: &mut usize, d: &'a [Dyn<'p>]) -> &'a Dyn<'p> {
+                            let r = &d[*k % d.len()];
+                            *k += 1;
+                            r
                         }
-                    });
+                        rep.inc("macro_calls_with_side_effecting_arguments");
+                        lib!({
+                            match (d.len(), *ln) {
+                                (1, false) => {
+                                    out!(*nx(&mut k, &d));
+                                }
+                                (2, false) => {
+                                    out!(*nx(&mut k, &d), *nx(&mut k, &d));
+                                }
+                                (3, false) => {
+                                    out!(*nx(&mut k, &d), *nx(&mut k, &d), *nx(&mut k, &d));
+                                }
+                                (4, false) => {
+                                    out!(*nx(&mut k, &d), *nx(&mut k, &d), *nx(&mut k, &d), *nx(&mut k, &d));
+                                }
+                                (1, true) => {
+                                    outln!(*nx(&mut k, &d));
+                                }
+                                (2, true) => {
+                                    outln!(*nx(&mut k, &d), *nx(&mut k, &d));
+                                }
+                                (3, true) => {
+                                    outln!(*nx(&mut k, &d), *nx(&mut k, &d), *nx(&mut k, &d));
+                                }
+                                (4, true) => {
+                                    outln!(*nx(&mut k, &d), *nx(&mut k, &d), *nx(&mut k, &d), *nx(&mut k, &d));
+                                }
+                                _ => panic!("harness: out! arity {} not supported", d.len()),
+                            }
+                        });
+                        if k != d.len() {
+                            macro_evals = Some((d.len(), k));
+                        }
+                    } else {
+                        lib!({
+                            match (d.len(), *ln) {
+                                (0, true) => {
+                                    outln!();
+                                }
+                                (1, false) => {
+                                    out!(d[0]);
+                                }
+                                (2, false) => {
+                                    out!(d[0], d[1]);
+                                }
+                                (3, false) => {
+                                    out!(d[0], d[1], d[2]);
+                                }
+                                (4, false) => {
+                                    out!(d[0], d[1], d[2], d[3]);
+                                }
+                                (1, true) => {
+                                    outln!(d[0]);
+                                }
+                                (2, true) => {
+                                    outln!(d[0], d[1]);
+                                }
+                                (3, true) => {
+                                    outln!(d[0], d[1], d[2]);
+                                }
+                                (4, true) => {
+                                    outln!(d[0], d[1], d[2], d[3]);
+                                }
+                                _ => panic!("harness: out! arity {} not supported", d.len()),
+                            }
+                        });
+                    }
                 }
             }
             cur_fn.set("");
@@ -1759,6 +1808,18 @@ fn run_actions(spec: &CaseSpec, buf: usize, rep: &mut Report, verbose: bool) {
             eprintln!("  PANIC during {}: {} at {}:{}", cur_fn.get(), p.msg, p.file, p.line);
         }
         report_panic(rep, p, cur_fn.get(), spec.mode, replay.clone(), ctx);
+        return;
+    }
+    if let Some((args, evals)) = macro_evals {
+        rep.violation(
+            format!("macro_argument_evaluations:{}", PROFILE),
+            Json::obj()
+                .set("what", "out! / outln! evaluated its argument expressions a different number of times than there are arguments (an argument with a side effect - it.next(), stack.pop() - is written wrongly and consumed twice)")
+                .set("arguments", args)
+                .set("evaluations", evals)
+                .set("workload", spec.mode),
+            replay.clone(),
+        );
         return;
     }
     if let Some(b) = bad {
